@@ -23,7 +23,7 @@ import numpy as np
 import torch
 from hypothesis import strategies as st
 
-from ..harness import Leg, Violation, check, impl
+from ..harness import HarnessError, Leg, Violation, check, impl
 from ..models import dastdp as M
 
 # ------------------------------------------------------------------------------ vocabulary
@@ -355,6 +355,14 @@ def _run_formula(case, kind):
         exact_p = np.array([dt_dy and M.is_dyadic(d_impl[p]) for p in range(P)])
         amb_e = valid & (np.abs(np.nan_to_num(td)) <= band) & ~exact_p[None, :, None]
         amb_p = amb_e.any((0, 2))
+        if td.size <= 24:
+            # model self-check: [t_delta == 0] on exact rationals of the stored floats agrees with
+            # the float64 evaluation wherever the case is called decisive, and lies inside the
+            # band otherwise (an oracle inconsistency is a harness error, never a violation)
+            ez = M.tdelta_exact_zero(ls, pairs, dt, d_impl)
+            ex = exact_p[None, :, None]
+            if (valid & ex & ((np.nan_to_num(td, nan=1.0) == 0) != ez)).any() or (valid & ~ex & ez & ~amb_e).any():
+                raise HarnessError("reference model: float64 and exact-rational t_delta == 0 disagree")
         net, abssum, err = _model_step(kind, hp, red_eff, td, band, signal, gscale)
         gmax = (abs(gscale) * float(np.max(np.abs(signal)))) if kind in THREE else 1.0
         acc += net
